@@ -47,6 +47,9 @@ var kindsOf = [][]string{
 var allKinds = []string{"player", "room", "npc", "bank", "ghost"}
 
 func member(i int) *cluster.Member {
+	if i >= 1000 { // bulk members of the C20 harness
+		return &cluster.Member{ID: fmt.Sprintf("b%03d", i-1000), Host: fmt.Sprintf("127.0.0.1:%d", 6000+i-1000), Region: "default"}
+	}
 	if i == 0 {
 		return &cluster.Member{ID: "self", Host: "127.0.0.1:4000", Region: "default", Kinds: kindsOf[0]}
 	}
@@ -152,15 +155,23 @@ func runView(c ViewCase) (feat map[string]int, err error) {
 		var ms []*cluster.Member
 		next := map[int]bool{0: true}
 		dup := false
-		for _, i := range snap {
-			if i < 1 || i >= len(kindsOf) {
+		for _, v := range snap {
+			// entries >= 100 name the same member ID reported from another host (the node moved, or the
+			// provider corrected its address): the view is BY MEMBER ID, so this is a member that stayed
+			i, moved := v%100, v >= 100
+			if i < 1 || i >= len(kindsOf) || v < 0 || v >= 200 {
 				return nil, nil
 			}
 			if next[i] {
 				dup = true
 			}
 			next[i] = true
-			ms = append(ms, member(i))
+			m := member(i)
+			if moved {
+				m.Host = fmt.Sprintf("127.0.0.1:%d", 5000+i)
+				feat["member-reported-with-another-host"]++
+			}
+			ms = append(ms, m)
 		}
 		at := 0
 		if si < len(c.SelfAt) {
@@ -238,7 +249,13 @@ func TestMembershipView(t *testing.T) {
 		c := ViewCase{}
 		n := rapid.IntRange(1, 8).Draw(t, "snaps")
 		for i := 0; i < n; i++ {
-			c.Snaps = append(c.Snaps, rapid.SliceOfN(rapid.IntRange(1, len(kindsOf)-1), 0, 8).Draw(t, "snap"))
+			c.Snaps = append(c.Snaps, rapid.SliceOfN(rapid.Custom(func(t *rapid.T) int {
+				v := rapid.IntRange(1, len(kindsOf)-1).Draw(t, "member")
+				if rapid.IntRange(0, 5).Draw(t, "moved") == 0 {
+					v += 100
+				}
+				return v
+			}), 0, 8).Draw(t, "snap"))
 			c.SelfAt = append(c.SelfAt, rapid.IntRange(0, 8).Draw(t, "selfat"))
 		}
 		check(t, st, c, func() (map[string]int, error) { return runView(c) }, func(f map[string]int) bool {
@@ -274,6 +291,11 @@ type POp struct {
 	M  int    `json:"m,omitempty"`  // member index (handshake; unreachable of that member's host)
 	Ms []int  `json:"ms,omitempty"` // members list
 	A  string `json:"a,omitempty"`  // unreachable: a non-member address
+	// Alt: (handshake) the member comes from its alternative host - only taken when it is not a member at
+	// that moment; (unreachable) the report names the member's alternative host
+	Alt bool `json:"alt,omitempty"`
+	// N: (bulk) a members list with N further members b000..b(N-1), more than fit one reply chunk
+	N int `json:"n,omitempty"`
 }
 
 type ProvCase struct {
@@ -401,6 +423,8 @@ func runProv(c ProvCase) (feat map[string]int, err error) {
 		return h.agentN, h.agentGot
 	}
 	removedOnce := map[int]bool{}
+	hostOf := map[int]string{0: member(0).Host}
+	altHost := func(i int) string { return fmt.Sprintf("127.0.0.1:%d", 5000+i) }
 	for oi, op := range c.Ops {
 		before, _ := agentSaw()
 		told := true
@@ -412,8 +436,16 @@ func runProv(c ProvCase) (feat map[string]int, err error) {
 			if removedOnce[op.M] && !model[op.M] {
 				feat["re-adds-a-removed-member"]++
 			}
+			hm := member(op.M)
+			if op.Alt && !model[op.M] {
+				hm.Host = altHost(op.M)
+				feat["member-rejoins-from-another-address"]++
+			} else if model[op.M] {
+				hm.Host = hostOf[op.M] // a member that is in the list keeps the address it has there
+			}
+			hostOf[op.M] = hm.Host
 			model[op.M] = true
-			reply, err := handshake(member(op.M))
+			reply, err := handshake(hm)
 			if err != nil {
 				return nil, err
 			}
@@ -429,13 +461,36 @@ func runProv(c ProvCase) (feat map[string]int, err error) {
 				if removedOnce[i] && !model[i] {
 					feat["re-adds-a-removed-member"]++
 				}
+				mm := member(i)
+				if model[i] {
+					mm.Host = hostOf[i]
+				}
+				hostOf[i] = mm.Host
 				model[i] = true
-				ms = append(ms, member(i))
+				ms = append(ms, mm)
 			}
 			ml++
 			e.Send(prov, &cluster.Members{Members: ms})
 			if err := h.waitHandled("*cluster.Members", ml); err != nil {
 				return nil, err
+			}
+		case "bulk":
+			if op.N < 1 || op.N > 120 {
+				return nil, nil
+			}
+			var ms []*cluster.Member
+			for k := 0; k < op.N; k++ {
+				model[1000+k] = true
+				hostOf[1000+k] = member(1000 + k).Host
+				ms = append(ms, member(1000+k))
+			}
+			ml++
+			e.Send(prov, &cluster.Members{Members: ms})
+			if err := h.waitHandled("*cluster.Members", ml); err != nil {
+				return nil, err
+			}
+			if len(model) > 32 {
+				feat["more-than-32-members"]++
 			}
 		case "unreachable":
 			addr := op.A
@@ -444,13 +499,16 @@ func runProv(c ProvCase) (feat map[string]int, err error) {
 					return nil, nil
 				}
 				addr = member(op.M).Host
+				if op.Alt {
+					addr = altHost(op.M)
+				}
 			}
 			if addr == "" || addr == member(0).Host {
 				return nil, nil
 			}
 			isMember := false
 			for i := range model {
-				if member(i).Host == addr {
+				if hostOf[i] == addr {
 					isMember = true
 					delete(model, i)
 					removedOnce[i] = true
@@ -511,10 +569,13 @@ func TestProvider(t *testing.T) {
 		c := ProvCase{}
 		n := rapid.IntRange(1, 12).Draw(t, "ops")
 		for i := 0; i < n; i++ {
-			op := POp{K: rapid.SampledFrom([]string{"handshake", "handshake", "members", "unreachable", "unreachable"}).Draw(t, "k")}
+			op := POp{K: rapid.SampledFrom([]string{"handshake", "handshake", "handshake", "members", "members", "unreachable", "unreachable", "unreachable", "bulk"}).Draw(t, "k")}
 			switch op.K {
+			case "bulk":
+				op.N = rapid.SampledFrom([]int{3, 31, 33, 40, 64, 75}).Draw(t, "n")
 			case "handshake":
 				op.M = rapid.IntRange(1, len(kindsOf)-1).Draw(t, "m")
+				op.Alt = rapid.IntRange(0, 2).Draw(t, "alt") == 0
 			case "members":
 				op.Ms = rapid.SliceOfN(rapid.IntRange(0, len(kindsOf)-1), 0, 6).Draw(t, "ms")
 			case "unreachable":
@@ -522,6 +583,7 @@ func TestProvider(t *testing.T) {
 					op.A = rapid.SampledFrom([]string{"127.0.0.1:9", "10.0.0.1:4001", "nowhere", "127.0.0.1:40000"}).Draw(t, "a")
 				} else {
 					op.M = rapid.IntRange(1, len(kindsOf)-1).Draw(t, "m") // its host; a member or not, depending on the history
+					op.Alt = rapid.IntRange(0, 2).Draw(t, "alt") == 0
 				}
 			}
 			c.Ops = append(c.Ops, op)
